@@ -177,8 +177,8 @@ def assert_history_line(c):
                                                     {"id": "pub", "jwt": False}, {"id": "both", "jwt": False}], "reqs": reqs}
 
 
-def make_server():
-    store, srv, rp = ms.build(oidc=False)
+def make_server(framework=None):
+    store, srv, rp = ms.build(oidc=False, framework=framework)
     for cid, sec, method in CLIENTS:
         store.clients[cid] = Client(cid, sec, ["https://c/cb"], "a b", ms.ALL_GRANT_TYPES, ms.ALL_RESPONSE_TYPES, method,
                                     extra={"public_key": R.pem_public(R.keys()["rsa1"])} if cid == "pkjwt" else None)
@@ -212,7 +212,13 @@ def impl(c):
         except Exception as e:
             return {"raised": type(e).__name__}
     if c["op"] == "endpoint":
-        return impl_endpoint(c, store, srv)
+        out = impl_endpoint(c, store, srv)
+        for fw in ("flask", "django"):
+            st2, srv2 = make_server(fw)
+            o = impl_endpoint(c, st2, srv2)
+            if o != out and "transport_refused" not in o:
+                out["differs:" + fw] = o
+        return out
     if c["op"] == "history":
         return impl_history(c, store, srv)
     if c["op"] == "assert_history":
@@ -234,10 +240,14 @@ def impl_endpoint(c, store, srv):
     req = Req("POST", "https://as.example/ep", form, headers)
     try:
         if ep.startswith("token"):
-            r = srv.create_token_response(req)
+            r = ms.fw_call(srv, req, "create_token_response")
         else:
-            r = srv.create_endpoint_response(ep, req)
+            r = ms.fw_call(srv, req, "create_endpoint_response", ep)
     except Exception as e:
+        import traceback
+        tb = "".join(traceback.format_tb(e.__traceback__)[-2:])
+        if getattr(srv, "framework", None) and ("/werkzeug/" in tb or "/django/" in tb) and "/authlib/" not in tb:
+            return {"transport_refused": True}        # the test transport of the framework cannot carry this header: not a request the server ever sees
         return {"raised": type(e).__name__ + ": " + str(e)[:80]}
     after = json.dumps(store.snapshot(), sort_keys=True)
     body = r.body if isinstance(r.body, dict) else {}
@@ -406,6 +416,14 @@ def may_authenticate(c, methods, endpoint):
 
 
 def oracle(c, out):
+    v = oracle_core(c, {k: x for k, x in out.items() if not k.startswith("differs:")})
+    for fw in ("flask", "django"):
+        if "differs:" + fw in out:
+            v += [(f"[{fw} integration] {what}", dict(sig, fw=fw)) for what, sig in oracle_core(c, out["differs:" + fw])]
+    return v
+
+
+def oracle_core(c, out):
     v = []
     def bad(what, **sig):
         v.append((what, dict(sig, op=c["op"])))
